@@ -769,27 +769,26 @@ func (P *Prog) checkStructWritesByField(r *Result) {
 		// field selection must be by this iteration's schema key: Value.FieldByName(k), or Value.FieldByIndex /
 		// Field with an index taken from Type().FieldByName(k) in the same iteration, where k is computed purely
 		// from the loop key (capitalisation, a helper) — never read from a cache or another object
-		for _, l := range mapRangeLoops(fn) {
-			for b := range l.body {
-				for _, in := range b.Instrs {
-					c, ok := in.(*ssa.Call)
-					if !ok {
-						continue
-					}
-					ci := callOf(c)
-					if ci.static == nil || !isPkgFunc(ci.static, "reflect") || len(c.Call.Args) != 2 {
-						continue
-					}
-					switch ci.static.Name() {
-					case "FieldByName", "FieldByIndex", "Field":
-						if pureFromKey(c.Call.Args[1], l.key, 12) {
-							fieldSel++
-						} else {
-							bad = append(bad, fmt.Sprintf("the field selected at %s is not determined by this iteration's schema key alone (a cached or foreign index can name another field)", P.ipos(in)))
-						}
+		for _, lr := range P.schemaLoopRegions(fn) {
+			lr := lr
+			lr.each(func(_ *regionPart, _ *ssa.BasicBlock, in ssa.Instruction) {
+				c, ok := in.(*ssa.Call)
+				if !ok {
+					return
+				}
+				ci := callOf(c)
+				if ci.static == nil || !isPkgFunc(ci.static, "reflect") || len(c.Call.Args) != 2 {
+					return
+				}
+				switch ci.static.Name() {
+				case "FieldByName", "FieldByIndex", "Field":
+					if pureFromKey(c.Call.Args[1], lr.loop.key, 12) {
+						fieldSel++
+					} else {
+						bad = append(bad, fmt.Sprintf("the field selected at %s is not determined by this iteration's schema key alone (a cached or foreign index can name another field)", P.ipos(in)))
 					}
 				}
-			}
+			})
 		}
 		if len(structVals) == 0 {
 			bad = append(bad, "destination struct value (reflect.ValueOf(ctx.ValPtr).Elem()) not found")
@@ -1188,6 +1187,11 @@ func pureFromKey(v, x ssa.Value, depth int) bool {
 	}
 	if v == x {
 		return true
+	}
+	if substEnv != nil {
+		if sv, ok := substEnv[v]; ok && sv != v {
+			return pureFromKey(sv, x, depth-1)
+		}
 	}
 	switch t := v.(type) {
 	case *ssa.Const:
